@@ -727,9 +727,14 @@ impl Transaction {
             });
         }
 
-        self.propagate_governance().await?;
-        self.check_reference_closure().await?;
-        self.check_concept_key_identity().await?;
+        // A statement refused by a pre-commit check must leave nothing behind, exactly like one
+        // refused while planning: its shells are rows in state `pending`, and a query that names
+        // that state (`{state: "pending"}`, `{state: ?s}`) would otherwise see them until the
+        // next sweep.
+        if let Err(err) = self.check_before_commit().await {
+            self.discard_shells().await;
+            return Err(err);
+        }
 
         // Nothing this transaction touched keeps its shell state, and the
         // version rule is applied here so that a clause touching one element
@@ -813,6 +818,14 @@ impl Transaction {
             changes,
             warnings: self.warnings,
         })
+    }
+
+    /// The checks that can still refuse the statement before its first durable write.
+    async fn check_before_commit(&mut self) -> Result<(), KipError> {
+        self.propagate_governance().await?;
+        self.check_reference_closure().await?;
+        self.check_concept_key_identity().await?;
+        Ok(())
     }
 
     /// Abandons everything staged, removing the shells this run minted.
